@@ -286,6 +286,26 @@ PROPS["C18"] = dict(
     floor=dict(quick=4000, thorough=40000),
 )
 
+PROPS["C07"] = dict(
+    level="exploration",
+    technique="metamorphic testing (one-push reference run vs generated partitions) with rapidcheck over inputs, mutations and partitions for the seven streaming consumers, and an enumerator of every two-chunk split",
+    rule=("case = (consumer among x509_minimal, x509_decoder, skey_decoder, pkey_decoder, pem_decoder, TLS client, TLS server; input among fixture "
+          "chains, all test/x509 certificates, OpenSSL- and library-encoded keys, sample and generated PEM texts, recorded peer streams of 128 TLS "
+          "session configurations; optional mutation: one byte altered, truncation, trailing bytes; partition: one byte at a time, two chunks, or "
+          "generated small chunks). The complete outcome (verdict, error code, key, usages, name elements / decoder error, key fields, isCA, DN "
+          "bytes / PEM event-name-payload sequence and bytes consumed / bytes emitted, final state, error, delivered data, master secret) must "
+          "equal that of the one-push run. non-trivial = every case (each has >= 1 chunk boundary inside the input); distinct = (consumer, "
+          "input, mutation, partition)"),
+    assumptions=["callback granularity and timing are not outcomes; bytes of a PEM object that ended in error and DN callbacks of a failed certificate are not compared",
+                 "TLS endpoints: output is drained fully after every push in both runs"],
+    targets=[dict(name="c07_chunking", src="c07_chunking.cpp", flavour="san", libs=SSL_LIBS, noseed=True)],
+    quick=[("c07_chunking", "enum", dict(shards=16)),
+           ("c07_chunking", "rc", dict(cases=16000, shards=16))],
+    thorough=[("c07_chunking", "enum", dict(shards=16)),
+              ("c07_chunking", "rc", dict(cases=600000, shards=16))],
+    floor=dict(quick=20000, thorough=200000),
+)
+
 # ---------------------------------------------------------------- manifest text
 HOOK_COMMITS = ["b37444c", "e1637c5"]
 NOT_APPLICABLE = {}
@@ -420,4 +440,13 @@ MANIFEST_TEXT["C18"] = dict(
           "nothing spurious is emitted around a malformed object; the port's public-key decoder is compared with the certificate decoder."),
     design_ref="DESIGN.md section 4, C18",
     note="two known findings in br_pkey_decoder (F2, F3) are listed in known_findings.txt and reported as KNOWN-FINDING",
+)
+
+MANIFEST_TEXT["C07"] = dict(
+    text=("Metamorphic relation 'same bytes, other chunking => same complete outcome' checked for all seven streaming consumers: exhaustively for "
+          "every two-chunk split of the fixture chains, a third of the test/x509 certificates (all in thorough), every key encoding, every PEM "
+          "text and three recorded TLS sessions (every third split in quick, every split in thorough), and by generated multi-chunk / one-byte "
+          "partitions over valid, mutated and truncated inputs."),
+    design_ref="DESIGN.md section 4, C07",
+    note="the reference run is the library itself under another chunking (metamorphic); correctness of the outcome is the business of C04/C18/C01",
 )
